@@ -27,6 +27,9 @@ func (source *SR) NewTransform(dest *SR) (Transformer, error) {
 	}
 
 	return func(x, y float64) (float64, float64, error) {
+		// The WGS84 workaround below replaces the source for the rest of this
+		// call only; the captured reference must stay untouched for later calls.
+		source := source
 		point := []float64{x, y}
 		// Workaround for datum shifts towgs84, if either source or destination projection is not wgs84
 		if checkNotWGS(source, dest) || checkNotWGS(dest, source) {
